@@ -3,8 +3,9 @@ import NeumannModel.RelTx.Race
   C09 — third module of property theorems (ONLY theorems and their non-vacuity examples):
   the property BELOW statement granularity.  `tx_update` / `tx_delete` collect their rows by a scan
   and only afterwards take the row locks; other transactions' statements can run in between
-  (`RaceModel.lean`).  What is FALSE of the code as it is (witnesses), and what the proposed
-  repair — read the locked rows again — makes true for every interleaving.
+  (`RaceModel.lean`).  What was FALSE of the code before fcb86137 (witnesses on `txUpdateApplyOld` /
+  `txDeleteApplyOld`), and what the repair — the locked rows are read again — makes true of the code
+  as it is for every interleaving.
 -/
 namespace Neumann.RelTx.Props3
 open Neumann.RelTx Neumann.RelTx.Props
@@ -20,7 +21,8 @@ def scanned : List (Nat × List Val) := ((sOpen.tables 0).map (txScan · (.ge 0 
     row 1 is deleted (two non-transactional statements) -/
 def sGap : State := run sOpen [.update 0 (.idEq 0) [(0, 7)], .delete 0 (.idEq 1)]
 
-/-- WITNESS, the code as it is.  Transaction A = 2 has scanned rows `[1,1]`, `[2,2]`; before it takes its
+/-- WITNESS, the code BEFORE fcb86137 (`txUpdateApplyOld`: undo image, index changes and overwrite
+    computed from the values the scan read before the lock).  Transaction A = 2 has scanned rows `[1,1]`, `[2,2]`; before it takes its
     locks another writer commits `c0 = 7` on row 0.  A's second half (SET c1 = 9 on row 0) takes the
     lock, records the STALE values `[1,1]` as the row's pre-image and answers `Ok(1)`.  A rolls back,
     `Ok`: row 0 is `[1,1]` again — the committed `c0 = 7` is gone although its writer never conflicted
@@ -35,7 +37,7 @@ theorem scan_before_lock_loses_committed_write_witness :
     calm s0 [.createTable 2 [], .createIndex 0 0, .insert 0 [1, 1], .insert 0 [2, 2], .begin,
              .update 0 (.idEq 0) [(0, 7)], .delete 0 (.idEq 1)] = true ∧
     -- A's second half on the row it scanned first
-    (let r := txUpdateApplyStale sGap 2 0 [(0, [1, 1])] [(1, 9)]
+    (let r := txUpdateApplyOld sGap 2 0 [(0, [1, 1])] [(1, 9)]
      r.2 = some (some 1) ∧
      (r.1.tables 0).map (scanAnswer · .all) = some [(0, [7, 9])] ∧
      (r.1.txs 2).map (·.undo) = some [.updated 0 0 [1, 1] []] ∧
@@ -44,37 +46,37 @@ theorem scan_before_lock_loses_committed_write_witness :
      ((rollback r.1 2).1.tables 0).map (select · (.eq 0 1)) = some [] ∧
      ((rollback r.1 2).1.tables 0).map (select · (.eq 0 7)) = some []) ∧
     -- the whole stale scan: the row deleted in the gap stops the statement half way
-    (let r := txUpdateApplyStale sGap 2 0 scanned [(0, 5)]
+    (let r := txUpdateApplyOld sGap 2 0 scanned [(0, 5)]
      r.2 = some none ∧ (r.1.tables 0).map (scanAnswer · .all) = some [(0, [5, 1])] ∧
      (rollback r.1 2).2 = .err .rollbackFailed) := by decide
 
-/-- WITNESS for `tx_delete`: a row deleted — and committed — by somebody else between A's scan and A's
+/-- WITNESS for `tx_delete` before fcb86137 (`txDeleteApplyOld`): a row deleted — and committed — by somebody else between A's scan and A's
     locks is deleted "again" by A's second half (`slab.delete` answers `Ok(false)`, no error), and A's
     rollback RESURRECTS it. -/
 theorem scan_before_lock_resurrects_deleted_row_witness :
-    let r := txDeleteApplyStale sGap 2 0 scanned
+    let r := txDeleteApplyOld sGap 2 0 scanned
     r.2 = some 2 ∧ (r.1.tables 0).map (scanAnswer · .all) = some [] ∧
     (rollback r.1 2).2 = .ok ∧
     ((rollback r.1 2).1.tables 0).map (scanAnswer · .all) = some [(0, [1, 1]), (1, [2, 2])] := by decide
 
-/-- THE REPAIR IS INVISIBLE SEQUENTIALLY.  Run right after its own scan (nothing in between), the
-    repaired second half — lock the scanned ids, read those rows again, keep the ones that still
-    match — is exactly the atomic statement of the model, for every state, condition and SET list.
-    So every statement-level theorem and the whole statement-level correspondence carry over. -/
-theorem repaired_second_half_after_own_scan_is_the_statement (s : State) (A t : Nat) (cond : Cond) (T : Table)
+/-- THE RE-READ IS INVISIBLE SEQUENTIALLY.  Run right after its own scan (nothing in between), the
+    second half as the code is (fcb86137) — lock the scanned ids, read those rows again, keep the ones
+    that still match — is exactly the atomic statement of the model, for every state, condition and SET
+    list.  So every statement-level theorem and the whole statement-level correspondence carry over. -/
+theorem second_half_after_own_scan_is_the_statement (s : State) (A t : Nat) (cond : Cond) (T : Table)
     (hg : gate s A = none) (hT : s.tables t = some T) :
     (∀ upd, updBad T upd = false →
-      txUpdateApplyFixed s A t cond ((txScan T cond).map (·.1)) upd = txUpdate s A t cond upd) ∧
-    txDeleteApplyFixed s A t cond ((txScan T cond).map (·.1)) = txDelete s A t cond := by
+      txUpdateApply s A t cond ((txScan T cond).map (·.1)) upd = txUpdate s A t cond upd) ∧
+    txDeleteApply s A t cond ((txScan T cond).map (·.1)) = txDelete s A t cond := by
   have hids : (txScan T cond).map (·.1) = matching T cond := txScan_ids T cond
   rw [hids]
-  exact ⟨fun upd hu => txUpdateApplyFixed_after_own_scan hg hT hu, txDeleteApplyFixed_after_own_scan hg hT⟩
+  exact ⟨fun upd hu => txUpdateApply_after_own_scan hg hT hu, txDeleteApply_after_own_scan hg hT⟩
 
-/-- THE REPAIR UNDER EVERY INTERLEAVING.  Take any calm script (interleaved transactions, commits,
+/-- THE CODE AS IT IS UNDER EVERY INTERLEAVING (what fcb86137 makes true).  Take any calm script (interleaved transactions, commits,
     rollbacks, non-transactional statements, batch inserts, DDL — in particular whatever other
     transactions did since A's scan), an open transaction A, and ANY list `ids` of existing rows of
     table `t` as "the rows A scanned earlier" — stale, incomplete, or matching a condition the rows no
-    longer satisfy.  The repaired second half of `tx_update` / `tx_delete` on those ids
+    longer satisfy.  The second half of `tx_update` / `tx_delete` on those ids
       (0) when it answers an error (a scanned row is locked by somebody else) has changed nothing;
       (1) leaves every index exact (every index-served `select` = the full scan) and reaches a state in
           which the whole rollback invariant holds again, so every later statement is covered by
@@ -84,14 +86,14 @@ theorem repaired_second_half_after_own_scan_is_the_statement (s : State) (A t : 
           committed work of others since A's scan included;
       (3) leaves every other open transaction a bystander: its undo log and every row it has written
           are untouched.
-    `scan_before_lock_loses_committed_write_witness` shows (1)–(2) fail for the code as it is. -/
-theorem repaired_second_half_is_safe_for_any_scan (a b : Nat) (ops : List Op) (hcalm : calm (init a b) ops = true)
+    `scan_before_lock_loses_committed_write_witness` shows (1)–(2) fail for the code before fcb86137. -/
+theorem second_half_is_safe_for_any_scan (a b : Nat) (ops : List Op) (hcalm : calm (init a b) ops = true)
     (A t : Nat) (T : Table) (hopen : gate (run (init a b) ops) A = none)
     (hT : (run (init a b) ops).tables t = some T) (cond : Cond) (ids : List Nat)
     (hex : ∀ i ∈ ids, i < T.rows.length) (hnd : ids.Nodup)
     (s' : State)
-    (hs' : (∃ upd, updBad T upd = false ∧ s' = (txUpdateApplyFixed (run (init a b) ops) A t cond ids upd).1) ∨
-           s' = (txDeleteApplyFixed (run (init a b) ops) A t cond ids).1) :
+    (hs' : (∃ upd, updBad T upd = false ∧ s' = (txUpdateApply (run (init a b) ops) A t cond ids upd).1) ∨
+           s' = (txDeleteApply (run (init a b) ops) A t cond ids).1) :
     let s := run (init a b) ops
     (lockBlocked s A t ids = true → s' = s) ∧
     (∀ t' T' c, s'.tables t' = some T' → select T' c = scanAnswer T' c) ∧
@@ -109,11 +111,11 @@ theorem repaired_second_half_is_safe_for_any_scan (a b : Nat) (ops : List Op) (h
     · simp [hp] at hopen
   have hstep : StepOK s s' (some A) := by
     rcases hs' with ⟨upd, hu, rfl⟩ | rfl
-    · exact stepOK_txUpdateApplyFixed hinv hx hT cond ids hex upd hu
-    · exact stepOK_txDeleteApplyFixed hinv hx hT cond ids hex hnd
+    · exact stepOK_txUpdateApply hinv hx hT cond ids hex upd hu
+    · exact stepOK_txDeleteApply hinv hx hT cond ids hex hnd
   -- the transaction records: others untouched, A's log grown, phase kept
   have htxs : (∀ B, B ≠ A → s'.txs B = s.txs B) ∧ (∃ more, s'.txs A = some { x with undo := x.undo ++ more }) := by
-    have k := applyFixed_txs s A t cond ids
+    have k := apply_txs s A t cond ids
     rcases hs' with ⟨upd, _, rfl⟩ | rfl
     · exact ⟨(k.1 upd).1, (k.1 upd).2 x hx⟩
     · exact ⟨k.2.1, k.2.2 x hx⟩
@@ -130,8 +132,8 @@ theorem repaired_second_half_is_safe_for_any_scan (a b : Nat) (ops : List Op) (h
   · intro hb
     have hb' : lockBlocked (run (init a b) ops) A t ids = true := hb
     rcases hs' with ⟨upd, _, rfl⟩ | rfl
-    · unfold txUpdateApplyFixed; simp only [hT, hb', ↓reduceIte]; rfl
-    · unfold txDeleteApplyFixed; simp only [hT, hb', ↓reduceIte]; rfl
+    · unfold txUpdateApply; simp only [hT, hb', ↓reduceIte]; rfl
+    · unfold txDeleteApply; simp only [hT, hb', ↓reduceIte]; rfl
   · intro t' T' c hT'
     exact select_eq_scan T' (hstep.inv.idx t' T' hT') c
   · intro t' i
@@ -144,21 +146,21 @@ theorem repaired_second_half_is_safe_for_any_scan (a b : Nat) (ops : List Op) (h
     · rw [htxs.1 B hB, hxB] at h; cases h
     · exact (h.2 t' i hn).1
 
-/-- non-vacuity of `repaired_second_half_is_safe_for_any_scan`, on the interleaving of the witness: the
+/-- non-vacuity of `second_half_is_safe_for_any_scan`, on the interleaving of the witness: the
     script up to the end of the gap is calm, A = 2 is open, the stale ids `[0, 1]` are rows of the table;
-    the repaired second half updates only row 0 (row 1 is gone), on its CURRENT values; A's rollback gives
+    the second half updates only row 0 (row 1 is gone), on its CURRENT values; A's rollback gives
     back `[7,1]` — the other writer's committed value — and the index answers agree with the scan -/
 example :
     let ops : List Op := [.createTable 2 [], .createIndex 0 0, .insert 0 [1, 1], .insert 0 [2, 2], .begin,
                           .update 0 (.idEq 0) [(0, 7)], .delete 0 (.idEq 1)]
     calm s0 ops = true ∧ run s0 ops = sGap ∧ gate sGap 2 = none ∧ scanned.map (·.1) = [0, 1] ∧
     ((sGap.tables 0).map (·.rows.length)) = some 2 ∧ updBad ((sGap.tables 0).getD default) [(1, 9)] = false ∧
-    (let r := txUpdateApplyFixed sGap 2 0 (.ge 0 0) [0, 1] [(1, 9)]
+    (let r := txUpdateApply sGap 2 0 (.ge 0 0) [0, 1] [(1, 9)]
      r.2 = .okN 1 ∧ (r.1.tables 0).map (scanAnswer · .all) = some [(0, [7, 9])] ∧
      (r.1.txs 2).map (·.undo) = some [.updated 0 0 [7, 1] []] ∧ (rollback r.1 2).2 = .ok ∧
      ((rollback r.1 2).1.tables 0).map (scanAnswer · .all) = some [(0, [7, 1])] ∧
      ((rollback r.1 2).1.tables 0).map (select · (.eq 0 7)) = some [(0, [7, 1])]) ∧
-    (let r := txDeleteApplyFixed sGap 2 0 (.ge 0 0) [0, 1]
+    (let r := txDeleteApply sGap 2 0 (.ge 0 0) [0, 1]
      r.2 = .okN 1 ∧ ((rollback r.1 2).1.tables 0).map (scanAnswer · .all) = some [(0, [7, 1])]) := by
   refine ⟨by decide, rfl, by decide, by decide, by decide, by decide, by decide, by decide⟩
 
